@@ -516,7 +516,7 @@ def _validate_one(args):
             at_all[int(a)] = max(at_all.get(int(a), 0), int(b))
         if r.ok:
             break
-        m = re.search(r"tid = (\d+)", r.violation["text"])
+        m = re.search(r"(?m)^(?:/\\ )?tid = (\d+)", r.violation["text"])
         if not m:
             raise Machinery("trace validation stopped without naming a trace: %s" % r.violation["text"][:2000])
         bad = part[int(m.group(1)) - 1]
